@@ -144,8 +144,8 @@ def run(ctx):
              'next time is not computed from max(now, previous next time)',
              ctx.loc(ad))
     gn = prog.func(TRG + '.get_next_execution_time')
-    r3.check('get_next' in ast.unparse(gn.node) and
-             'get_prev' not in ast.unparse(gn.node),
+    r3.check(U.phas(gn.node, 'croniter.croniter(pattern, start_time)'
+                    '.get_next(___)'),
              ctx.construct(gn), 'next execution time does not use '
              'croniter.get_next', ctx.loc(gn))
     dec = [x for x in own_nodes(ad.node) if isinstance(x, ast.AugAssign)
@@ -187,9 +187,9 @@ def run(ctx):
     gq = prog.func(DB + '.get_next_cron_triggers')
     qcfg = ctx.cfg(gq)
     ops, base, rets_ = qshape.query_ops(qcfg, gq.node)
-    txt = ' ; '.join(o.text for o in ops)
-    r3.check('next_execution_time < time' in txt or
-             'next_execution_time <= time' in txt,
+    r3.check(any(U.phas(o.call, '___.next_execution_time < time') or
+                 U.phas(o.call, '___.next_execution_time <= time')
+                 for o in ops),
              ctx.construct(gq, extra='only due triggers'),
              'due-trigger query does not filter next_execution_time < time',
              ctx.loc(gq))
@@ -244,6 +244,6 @@ def run(ctx):
     vf = prog.func(TRG + '.validate_cron_trigger_input')
     r4.check(sum(1 for x in own_nodes(vf.node)
                  if isinstance(x, ast.Raise)) >= 4 and
-             'croniter.croniter(pattern)' in ast.unparse(vf.node),
+             U.phas(vf.node, 'croniter.croniter(pattern)'),
              ctx.construct(vf), 'creation-time validation lost a check',
              ctx.loc(vf))
